@@ -74,7 +74,9 @@ theorem glomit_sim (p : Prims) {recO : Rec Obs} {rec : Rec σ} (h : Sim recO rec
   | call func args kwargs =>
     simp only [glomit, mapSc_bind_left, argVal_sim h]
     congr 1; funext f; congr 1; funext a; congr 1; funext kw
-    split <;> simp only [mapSc_fail, mapSc_bind_left, mapSc_pure]
+    split
+    · split <;> simp only [mapSc_fail, mapSc_bind_left, mapSc_pure]
+    · simp only [mapSc_fail]
   | invoke func fis blocks =>
     simp only [glomit, mapSc_bind_left, invokeLoop_sim h]
     congr 1
